@@ -179,6 +179,9 @@ def check(run, prog, tier):
                     ("quantarhei.qm.propagators.dmevolution.ReducedDensityMatrixEvolution", "ReducedDensityMatrix")):
         handout.check_nearest(run, "C02-K", prog, prog.cls(q), "TimeAxis", ctor,
                               "the state read at a stored time is that of the previous step and deviates from the exact exponential")
+    run.rule("C02-L", "what the propagated state is measured with is Hermitian: the scalar product of state vectors conjugates its "
+                      "first vector; the eigenvector matrix of a Hamiltonian is inverted by its Hermitian conjugate", minimum=5)
+    rule_L(run, prog)
 
     cls = prog.cls(RDM)
     nloops = 0
@@ -661,3 +664,47 @@ def rule_E(run, prog, routines):
         run.obligation(rid, "DensityMatrixEvolution.set_initial_condition", ok, key="copy-in",
                        message="the initial condition must be copied into slot 0 of the evolution's own "
                                "array (element store), not aliased", loc=sic.loc())
+
+
+def rule_L(run, prog):
+    """'With no relaxation the norm is conserved / the propagated matrix stays Hermitian' - for complex amplitudes and a
+    complex Hermitian Hamiltonian too.  (i) StateVector.norm and StateVector.dot are the scalar product <a|b> = sum conj(a_i)
+    b_i: every product they form uses numpy.vdot or conjugates the first factor; numpy.dot(a, b) alone is bilinear and
+    gives norm (1, i)/sqrt(2) = 0.  (ii) Hamiltonian.diagonalize / undiagonalize transform with the eigenvector matrix SS
+    of eigh, which is unitary: wherever its transpose stands for the inverse it is conjugated (numpy.conj(SS.T), SS.conj().T);
+    the bare transpose returns a non-Hermitian Hamiltonian after the round trip."""
+    rid = "C02-L"
+    sv = prog.cls("quantarhei.qm.hilbertspace.statevector.StateVector")
+    for nme in ("dot", "norm"):
+        f = sv.methods[nme]
+        prog.consulted.add(f.relpath)
+        prods = [n for n in ast.walk(f.node) if isinstance(n, ast.Call) and call_name(n) in ("dot", "vdot", "inner", "sum", "einsum")]
+        if not prods:
+            raise AnalysisError("StateVector.%s forms no product" % nme)
+        for c in prods:
+            ok = call_name(c) == "vdot" or (c.args and any(isinstance(x, ast.Call) and call_name(x) in ("conj", "conjugate")
+                                                            for x in ast.walk(c.args[0])))
+            run.obligation(rid, "StateVector.%s" % nme, ok, key="antilinear:" + norm(c)[:40],
+                           message="StateVector.%s forms %s without conjugating the first vector: the norm of a complex state is then "
+                                   "not its length ((1, i)/sqrt(2) has 'norm' 0) and is not conserved under Hamiltonian propagation"
+                                   % (nme, norm(c)[:50]), loc=f.loc(c), sample={"product": norm(c)[:60]})
+    hm = prog.cls("quantarhei.qm.hilbertspace.hamiltonian.Hamiltonian")
+    nT = 0
+    for nme in ("diagonalize", "undiagonalize"):
+        f = hm.methods[nme]
+        prog.consulted.add(f.relpath)
+        from ..loader import parents_map
+        pm = parents_map(f.node)
+        for x in ast.walk(f.node):
+            if isinstance(x, ast.Attribute) and x.attr == "T" and norm(x.value) in ("SS", "self.SS"):
+                nT += 1
+                p_ = pm.get(x)
+                conj = isinstance(p_, ast.Call) and call_name(p_) in ("conj", "conjugate")
+                conj = conj or (isinstance(x.value, ast.Call) and call_name(x.value) in ("conj", "conjugate"))
+                conj = conj or (isinstance(p_, ast.Attribute) and p_.attr in ("conj", "conjugate"))
+                run.obligation(rid, "Hamiltonian.%s" % nme, conj, key="unitary-inverse:%d" % nT,
+                               message="Hamiltonian.%s uses the bare transpose %s of the eigenvector matrix as its inverse: for a "
+                                       "complex Hermitian Hamiltonian the inverse is the Hermitian conjugate, and diagonalize() followed "
+                                       "by undiagonalize() returns a different, non-Hermitian matrix" % (nme, norm(x)), loc=f.loc(x))
+    if nT < 3:
+        raise AnalysisError("Hamiltonian.diagonalize/undiagonalize: only %d uses of the transposed eigenvector matrix (3 confirmed)" % nT)
